@@ -13,6 +13,18 @@ CLAIMED = {
     'C03': ('s5/C03', TECH + 'all feasible paths of findSegment enumerated by re-execution with solver-checked prefixes; Real interpretation for the specification value, UF / node identity for route independence, concrete hint post-state per path',
             'On every feasible path (solver-enumerated; breakpoints, coefficients and t symbolic) the result equals the k-th derivative of the specification piece at t-b_i, the path condition implies t lies in that piece (clamped), all routes (plain, hinted with every hint class, batch, index/at/iterator local-time, derivative trajectory, Deriv-enum overloads) are node-identical, and the hint equals the piece index afterwards; sequences of hinted calls. Segment counts {1,2,3,4,31,32,33}, coefficient counts {1,4,6,8,9,12}.',
             'hint and index arguments are concrete ints enumerated by class; NaN t outside; ulp-adjacent times covered in the Real order only'),
+    'C07': ('s5/C07', TECH + 'oracle cost functors (fresh symbolic outputs per call) + exact forward-mode AD of the recorded cost with the oracle outputs as functions of their recorded arguments; cut at the decoded durations (T-all) / substitution after differentiation (T-grid)',
+            'grad_out[j] equals the exact derivative of the returned cost node w.r.t. x_j for every decision vector, reference state, start time, energy weight, map parameter and every value/gradient output of the user functors (all symbolic): time components through the chain rule (d cost/d T_i)(d toTime/d tau), spatial and boundary components directly; QuadInv (both branches), identity and user time maps; identity, affine (full / reduced per-index dof) and element-wise quadratic spatial maps; 3-cost and 2-cost overloads; energy weight positive / zero / non-positive.',
+            'sizes N, K, DIM, flags enumerated (caps in evidence); protocol: running cost depends on (p,v,a,j,s,global time,segment index)'),
+    'C08': ('s5/C08', TECH + 'oracle cost functors that record their arguments; Real interpretation with cuts at the published coefficients, decoded durations and reported energy',
+            'Every sample handed to the running cost has the right segment index, local time (k/K)T_i, global time t0+sum T_j+t, and p,v,a,j,s equal to derivatives 0..4 of the published piece at t; K+1 calls per segment; cost == time cost + waypoint cost + trapezoid sum + rho*energy (energy term iff rho > 0); time/waypoint functors receive the decoded durations/waypoints and are called once; 2-cost overload makes no waypoint call.',
+            'K in {1,2,3,5,64} quick; N<=3; DIM<=2 quick'),
+    'C09': ('s5/C09', TECH + 'independent reference layout function; UF node identity for pinning and block placement; Real interpretation for map formulas and the initial-guess round trip; reconfiguration histories vs a fresh optimizer',
+            'getDimension, the initial-guess size and the gradient size equal the reference total for all 256 flag settings; decoded durations == toTime(x_i), optimised waypoints == toPhysical(x block at the reference offset), flagged boundary blocks == x blocks at the reference offsets, everything else node-identical to the reference state; decode(generateInitialGuess()) == reference; after every reconfiguration history up to length 2 (3 thorough) all observables equal those of a fresh optimizer configured directly.',
+            'orders 3/5/7, N 1..3 (6 thorough), DIM 1..2 (3 thorough); round trip assumes reference durations >= 1 ms'),
+    'C12': ('s5/C12', TECH + 'permuting and nesting executors; UF / node identity of cost, gradient and of every argument handed to the user functors against SerialExecutor with a fresh workspace',
+            'SCHEDULE INDEPENDENCE ONLY: for all permutations of the per-segment tasks (N<=4; N=5,6 sampled), for OpenMPExecutor (serial fallback), for the first call on a freshly configured optimizer, and for an evaluation interrupted after 0..N segment tasks by a complete second evaluation on the same optimizer with a private workspace, cost, gradient and all functor arguments are node-identical (bit-identical) to undisturbed serial evaluation. Freedom from data races under real threads is NOT decided by this technique.',
+            'half of the property: thread-level data races (e.g. the lazy layout cache written from const evaluate) are outside the claim - DESIGN s5/C12, s8'),
     'C11': ('s5/C11', TECH + 'UF / node identity with fresh variables per update and POISON for uninitialised buffers; histories enumerated exhaustively to length 3',
             'After every operation sequence up to length 3 over {evaluate order 0/1/2, global evaluate, update same shape / other segment count / other coefficient count, rejected update, copy, assign over a warm object, derivative()} every evaluation and derivative trajectory of every live object is node-identical to a fresh object built from the data it must reflect; spline trajectories after update (both overloads) equal a fresh spline and earlier copies keep the old data.',
             'sequence length <= 3; shapes listed in evidence'),
